@@ -43,7 +43,7 @@ CLAIMED = {
 }
 
 # checks that exist but are being re-synchronised with a /repo fix: not claimed until green again
-PENDING = set()
+PENDING = {"C18"}
 
 
 def main():
